@@ -11,8 +11,10 @@ cd "$(dirname "$0")/.."
 VERIF=$(pwd)
 BIN=$(rustc +nightly --print sysroot)/lib/rustlib/x86_64-unknown-linux-gnu/bin
 shards=${@:-0 5 11}
-(cd harness && CARGO_NET_OFFLINE=true RUSTFLAGS="--cfg oh_verif -Cinstrument-coverage" cargo +nightly build --offline --release --target-dir $VERIF/target-cov 2>&1 | tail -1)
 out=$VERIF/work/cov; rm -rf $out; mkdir -p $out
+# (build scripts and proc macros are instrumented too: keep their profiles out of /repo)
+(cd harness && LLVM_PROFILE_FILE=$out/build-%p-%m.profraw.tmp CARGO_NET_OFFLINE=true RUSTFLAGS="--cfg oh_verif -Cinstrument-coverage" cargo +nightly build --offline --release --target-dir $VERIF/target-cov 2>&1 | tail -1)
+rm -f $out/*.tmp
 for p in 01 02 03 04 05 06 07 08 09 10 11 13 14 15 16 17 19 20; do
   for w in $shards; do
     LLVM_PROFILE_FILE=$out/C$p-$w.profraw $VERIF/target-cov/release/ohv C$p --seed ${VERIF_SEED:-1} --worker $w --of 16 --tier quick \
